@@ -56,5 +56,9 @@ class StructOperations {
         const std::string &var_name, const std::string &member_name, int index);
 
   private:
+    // "Box<int>" をジェネリック構造体 Box<T> から必要時にインスタンス化
+    const StructDefinition *
+    instantiate_generic_struct(const std::string &struct_name);
+
     Interpreter *interpreter_;
 };
